@@ -35,12 +35,12 @@ def model_checks(tier):
 
 def cases(tier, seed, info):
     out = []
-    reps = 1 if tier == 'quick' else 10
+    reps = 1 if tier == 'quick' else 30
     for name in ('mex_pte.h', 'nimitz_pte.h'):
         for rep in range(reps):
             for chunk in range(6):
                 out.append(dict(kind='shipped', file=name, chunk=chunk, nchunks=6, seed=seed * 31 + rep * 7 + chunk))
-    n = 24 if tier == 'quick' else 600
+    n = 24 if tier == 'quick' else 3000
     for k in range(n):
         out.append(dict(kind='synthetic', seed=seed * 8887 + k))
     info['shipped_runs'] = 12 * reps
